@@ -547,7 +547,7 @@ func ruleValidatePass(p *Program, r *Result) map[string]*ssa.Function {
 // ruleNarrowEncoders: every narrowing in an encoder is justified by a bound that Validate enforces.
 func ruleNarrowEncoders(p *Program, r *Result, validators map[string]*ssa.Function) {
 	for _, t := range codecTypes {
-		M := p.LookupFunc("", t+".MarshalBinary")
+		M := p.view(p.LookupFunc("", t+".MarshalBinary")) // with the steps it is split into folded in
 		V := validators[t]
 		if M == nil || V == nil {
 			continue
@@ -592,6 +592,19 @@ func ruleNarrowEncoders(p *Program, r *Result, validators map[string]*ssa.Functi
 					if p.Sizes.Sizeof(x.Type()) == 1 && allOctetsTaken(M, x, p.Sizes) {
 						continue
 					}
+					// the low n octets of a value written out (byte(v>>8), byte(v): a folded two-octet helper): one
+					// n-octet write, reported once
+					if p.Sizes.Sizeof(x.Type()) == 1 {
+						if v, k, ok := octetOf(x); ok {
+							if n := lowOctetsTaken(M, v, p.Sizes); n >= 2 {
+								if k != 0 {
+									continue
+								}
+								report(in, v, int64(1)<<uint(8*n)-1, fmt.Sprintf("%d-octet write", n))
+								continue
+							}
+						}
+					}
 					limit := int64(1)<<(uint(p.Sizes.Sizeof(x.Type()))*8) - 1
 					report(in, x.X, limit, fmt.Sprintf("narrowing conversion to %s", typeName(x.Type())))
 				case *ssa.Call:
@@ -621,6 +634,32 @@ func octetOf(cv *ssa.Convert) (ssa.Value, int64, bool) {
 		return nil, 0, false
 	}
 	return cv.X, 0, true
+}
+
+// lowOctetsTaken: how many consecutive low octets of v (shift 0, 8, ...) the function converts to bytes.
+func lowOctetsTaken(fn *ssa.Function, v ssa.Value, sizes types.Sizes) int64 {
+	seen := map[int64]bool{}
+	for _, b := range fn.Blocks {
+		for _, in := range b.Instrs {
+			c2, ok := in.(*ssa.Convert)
+			if !ok || sizes.Sizeof(c2.Type()) != 1 {
+				continue
+			}
+			if v2, k, ok := octetOf(c2); ok && v2 == v {
+				seen[k] = true
+			}
+		}
+	}
+	n := int64(0)
+	for seen[n] {
+		n++
+	}
+	for k := range seen {
+		if k >= n {
+			return 0 // not a contiguous run from the low end
+		}
+	}
+	return n
 }
 
 // allOctetsTaken: the function converts every octet of cv's source value to a byte (one conversion per shift
